@@ -66,7 +66,7 @@ class FakeSock(object):
         self.closed = True
 
 
-def run_case(msgs, corrupt, sends, recvs, recv_buf=64):
+def run_case(msgs, corrupt, sends, recvs, recv_buf=64, send_buf=2 ** 16):
     """msgs: list of python objects to send; corrupt: None | (frame index 1-based, kind, value);
     sends: list of byte counts accepted by the sender's socket; recvs: list of byte counts per READ event."""
     import pysyncobj.tcp_connection as T
@@ -75,7 +75,7 @@ def run_case(msgs, corrupt, sends, recvs, recv_buf=64):
     poller = FakePoller()
     ss, rs = FakeSock(), FakeSock()
     delivered, ndisc = [], [0]
-    sender = T.TcpConnection(poller, socket=ss, timeout=1e9, sendBufferSize=2 ** 16, recvBufferSize=recv_buf)
+    sender = T.TcpConnection(poller, socket=ss, timeout=1e9, sendBufferSize=send_buf, recvBufferSize=recv_buf)
     receiver = T.TcpConnection(poller, socket=rs, timeout=1e9, sendBufferSize=2 ** 16, recvBufferSize=recv_buf)
     receiver.setOnMessageReceivedCallback(lambda m: delivered.append(m))
     receiver.setOnDisconnectedCallback(lambda: ndisc.__setitem__(0, ndisc[0] + 1))
@@ -91,35 +91,47 @@ def run_case(msgs, corrupt, sends, recvs, recv_buf=64):
         f, kind, val = corrupt
         if kind == 'len':
             lens[f - 1] = val
-        elif kind == 'payload':
+        elif kind in ('payload', 'junk'):
             bad.append(f)
     # sender side: hand all messages to send() with EAGAIN, then let the socket accept bytes as scripted
-    for m in msgs:
+    for i, m in enumerate(msgs):
+        before = len(sender._TcpConnection__writeBuffer)
         sender.send(m)
+        if corrupt and corrupt[1] == 'junk' and corrupt[0] == i + 1:
+            # a frame whose length field and compression are intact but whose content is not a pickled message
+            body = zlib.compress(bytes(corrupt[2]), 3)
+            sender._TcpConnection__writeBuffer = sender._TcpConnection__writeBuffer[:before] + struct.pack('i', len(body)) + body
+            n[i] = lens[i] = len(body)
         steps.append({'a': 'Send'})
     stream = b''
     total = sum(4 + x for x in n)
+    expected = bytes(sender._TcpConnection__writeBuffer)        # the frames, in order
     for k in sends:
         if len(ss.sent) >= total:
             break
-        ss.send_script = [k]
+        # one flush: the socket accepts the scripted amounts call after call, then reports EAGAIN
+        ss.send_script = list(k) if isinstance(k, (list, tuple)) else [k]
         before = len(ss.sent)
         sender._TcpConnection__trySendBuffer()
         acc = len(ss.sent) - before
         if acc:
-            steps.append({'a': 'SockSend', 'k': acc})
+            steps.append({'a': 'SockSend', 'k': acc, 'wireok': ss.sent == expected[:len(ss.sent)]})
     while len(ss.sent) < total:
         ss.send_script = [1 << 20]
         before = len(ss.sent)
         sender._TcpConnection__trySendBuffer()
-        steps.append({'a': 'SockSend', 'k': len(ss.sent) - before})
+        steps.append({'a': 'SockSend', 'k': len(ss.sent) - before, 'wireok': ss.sent == expected[:len(ss.sent)]})
+        if len(ss.sent) == before:
+            break       # the sender has nothing more to give although bytes are missing
     stream = bytearray(ss.sent)
     # corruption is applied to the bytes on the wire
     off = 0
-    for i, x in enumerate(n):
+    for i, x in enumerate(list(n)):
         if corrupt and corrupt[0] == i + 1:
             if corrupt[1] == 'len':
                 stream[off:off + 4] = struct.pack('i', corrupt[2])
+            elif corrupt[1] == 'junk':
+                pass        # already in place (put into the sender's buffer)
             else:
                 for q in range(off + 4, off + 4 + x):
                     stream[q] = (stream[q] ^ 0x5A) & 0xFF
@@ -166,6 +178,18 @@ def gen_cases(tier, seed):
     for a in range(1, total, step):
         for b in range(a + 1, total, step):
             cases.append((small, None, [a, b - a], [a, b - a]))
+    # undecodable content behind an intact length field and an intact compression layer
+    junks = [[255] * 10, [0x80, 0x04, 0x95], list(b'garbage'), [], [0x80, 0x02, 0xc3, 0x01], [ord('('), ord('l'), 0xfe], [0x4b]]
+    for j in junks:
+        for f in (1, 2, 3):
+            for cut in (1, total // 2, total - 1):
+                cases.append((small, (f, 'junk', j), [total], [cut]))
+            cases.append((small, (f, 'junk', j), [1] * total, [1] * total))
+    # the sender's socket fills up exactly at the end of a piece handed to send() (pieces of sendBufferSize bytes)
+    for sb in (8, 16):
+        for npieces in (1, 2, 3):
+            cases.append((small, None, [[sb] * npieces] + [[sb] * 2] * 8 + [[total]], [total], 64, sb))
+            cases.append((small, None, [[sb] * npieces, [3], [sb, sb]] + [[total]], [5, 7, total], 64, sb))
     # byte-by-byte
     for c in corrs:
         cases.append((small, c, [1] * total, [1] * total))
@@ -194,9 +218,15 @@ def gen_cases(tier, seed):
         elif r < 0.5:
             c = (f, 'payload', 0)
         tot = sum(pl) + 4 * len(pl)
-        sends = [rng.randint(1, 120) for _ in range(40)]
+        if r >= 0.5 and r < 0.6:
+            c = (f, 'junk', [rng.getrandbits(8) for _ in range(rng.randint(0, 12))])
+        sb = rng.choice([2 ** 16, 2 ** 16, 32, 64, 100])
+        sends = []
+        for _ in range(40):
+            g = rng.choice([1, 1, 2, 3])
+            sends.append([rng.choice([sb, sb, rng.randint(1, 120)]) if sb < 1000 else rng.randint(1, 120) for _ in range(g)])
         recvs = [rng.randint(1, 150) for _ in range(60)]
-        cases.append((msgs, c, sends, recvs))
+        cases.append((msgs, c, sends, recvs, 64, sb))
     return cases
 
 
@@ -232,8 +262,8 @@ def run(prop, tier, seed, out=print):
         out('  [spec] Framing.tla: %d distinct states over 4 parameter families, all complete: %s' % (sum(s['distinct'] for s in stats), all(s['completed'] for s in stats)))
         cases = gen_cases(tier, seed)
         traces = []
-        for (msgs, c, sends, recvs) in cases:
-            traces.append(run_case(msgs, c, sends, recvs))
+        for case in cases:
+            traces.append(run_case(*case))
         per = max(1, (len(traces) + 13) // 14)
         jobs = [(b, traces[b:b + per]) for b in range(0, len(traces), per)]
         with concurrent.futures.ThreadPoolExecutor(max_workers=14) as ex:
@@ -266,10 +296,11 @@ def run(prop, tier, seed, out=print):
             if key in seen:
                 continue
             seen.add(key)
-            msgs, c, sends, recvs = cases[v['case']]
+            msgs, c, sends, recvs = cases[v['case']][:4]
+            extra = list(cases[v['case']][4:])
             d = os.environ.get('VERIF_REPLAY_DIR') or os.path.join(tlc.ROOT, 'replays')
             os.makedirs(d, exist_ok=True)
-            body = {'engine': 'framing', 'property': prop, 'formulas': v['names'], 'msgs': repr(msgs), 'corrupt': c, 'sends': sends, 'recvs': recvs}
+            body = {'engine': 'framing', 'property': prop, 'formulas': v['names'], 'msgs': repr(msgs), 'corrupt': c, 'sends': sends, 'recvs': recvs, 'extra': extra}
             path = os.path.join(d, '%s-%s.json' % (prop, hashlib.sha1(json.dumps(body, sort_keys=True).encode()).hexdigest()[:10]))
             json.dump(body, open(path, 'w'))
             reported.append((v, path, c))
@@ -299,7 +330,7 @@ def replay(path, out=print):
     c = tuple(body['corrupt']) if body['corrupt'] else None
     wd = tlc.scratch('verif_replayf_')
     try:
-        tr = run_case(list(msgs), c, body['sends'], body['recvs'])
+        tr = run_case(list(msgs), c, body['sends'], body['recvs'], *body.get('extra', []))
         r = validate([tr], wd, 'replay')
         hit = [x for x in r['viol'] if set(x.get('names', [])) & set(body['formulas'])]
         for x in r['viol']:
